@@ -60,11 +60,17 @@ pub struct Cfg {
     pub repair_beam: usize,
     /// repairs only through cells that no gate of an earlier row reads (strictly forward chains)
     pub forward_repairs_only: bool,
+    /// repair through the not-yet-set affine cell of smallest (row, column) among all violated
+    /// gates (one successor per state) instead of gate by gate
+    pub repair_in_cell_order: bool,
+    /// a copy cycle that reaches an instance cell is pinned to its honest value (default); switch
+    /// off to let the region's exposed outputs change (the replay exposes what the circuit computes)
+    pub instance_pins: bool,
 }
 
 impl Default for Cfg {
     fn default() -> Self {
-        Cfg { max_rows: 3, max_repairs: 2, max_pow: 12, max_real_runs: 8, max_combinations: 3_000_000, seed_free_cells: false, repair_branch: 8, repair_beam: 64, forward_repairs_only: false }
+        Cfg { max_rows: 3, max_repairs: 2, max_pow: 12, max_real_runs: 8, max_combinations: 3_000_000, seed_free_cells: false, repair_branch: 8, repair_beam: 64, forward_repairs_only: false, repair_in_cell_order: false, instance_pins: true }
     }
 }
 
@@ -380,7 +386,15 @@ pub fn explore_subject<S: Subject>(case: &S, k: u32, region_ids: &[u32], cfg: &C
                                 }
                             }
                         }
-                        _ => pin = true,
+                        // with `instance_pins = false` an instance cell does not pin: the exposed vector of the replay is whatever
+                        // the circuit exposes (a different output for the same exposed inputs is exactly
+                        // what the reference judges); exposed inputs are pinned by their earlier advice cells
+                        Any::Instance => {
+                            if cfg.instance_pins {
+                                pin = true
+                            }
+                        }
+                        Any::Fixed => pin = true,
                     }
                     let nx = mapping[ci][cr];
                     ci = nx.0;
@@ -667,7 +681,6 @@ pub fn explore_subject<S: Subject>(case: &S, k: u32, region_ids: &[u32], cfg: &C
                     }
                 }
                 if !clash {
-                    let move_cells: HashSet<Cell> = ov.keys().copied().collect();
                     // repairs
                     let mut frontier: Vec<HashMap<Cell, F>> = vec![ov];
                     for depth in 0..=cfg.max_repairs {
@@ -685,6 +698,52 @@ pub fn explore_subject<S: Subject>(case: &S, k: u32, region_ids: &[u32], cfg: &C
                                 continue;
                             }
                             if depth == cfg.max_repairs {
+                                continue;
+                            }
+                            if cfg.repair_in_cell_order {
+                                // dependency order: among all violated gates, repair through the
+                                // not-yet-set affine cell with the smallest (row, column) — in a
+                                // chain of cells each defined from the previous ones, that is the
+                                // next cell of the chain; one successor per state
+                                let mut best: Option<(Cell, usize, usize)> = None;
+                                for &(gi, row) in &bad {
+                                    for (col, rot) in advice_queries(gate_polys[gi].1) {
+                                        let c = (col, t.at(row, rot));
+                                        if !cells.contains(&c) || ov.contains_key(&c) || pinned.contains(&c) {
+                                            continue;
+                                        }
+                                        if first_reader.get(&c).map(|r| *r < row).unwrap_or(false) {
+                                            continue;
+                                        }
+                                        if best.map(|(b, _, _)| (c.1, c.0) < (b.1, b.0)).unwrap_or(true) {
+                                            // affine in c?
+                                            let p = gate_polys[gi].1;
+                                            let v0 = t.adv(c, &ov);
+                                            let mut o1 = ov.clone();
+                                            let p0 = t.eval(p, row, &o1);
+                                            o1.insert(c, v0 + F::ONE);
+                                            let p1 = t.eval(p, row, &o1);
+                                            o1.insert(c, v0 + F::ONE.double());
+                                            let p2 = t.eval(p, row, &o1);
+                                            let slope = p1 - p0;
+                                            if !slope.is_zero_vartime() && (p2 - p1) == slope {
+                                                best = Some((c, gi, row));
+                                            }
+                                        }
+                                    }
+                                }
+                                if let Some((c, gi, row)) = best {
+                                    let p = gate_polys[gi].1;
+                                    let v0 = t.adv(c, &ov);
+                                    let mut o1 = ov.clone();
+                                    let p0 = t.eval(p, row, &o1);
+                                    o1.insert(c, v0 + F::ONE);
+                                    let slope = t.eval(p, row, &o1) - p0;
+                                    if let Some(inv) = Option::<F>::from(slope.invert()) {
+                                        o1.insert(c, v0 - p0 * inv);
+                                        next.push(o1);
+                                    }
+                                }
                                 continue;
                             }
                             // repair the earliest violated gate (by row) through one affine region
@@ -711,10 +770,7 @@ pub fn explore_subject<S: Subject>(case: &S, k: u32, region_ids: &[u32], cfg: &C
                                 if taken >= cfg.repair_branch {
                                     break;
                                 }
-                                // (a cell set by an earlier repair may be repaired again: a later
-                                // change can disturb a gate that was settled first; the cells of
-                                // the moves themselves are never touched)
-                                if !cells.contains(&c) || move_cells.contains(&c) || pinned.contains(&c) {
+                                if !cells.contains(&c) || ov.contains_key(&c) || pinned.contains(&c) {
                                     continue;
                                 }
                                 if cfg.forward_repairs_only && first_reader.get(&c).map(|r| *r < row).unwrap_or(false) {
